@@ -25,7 +25,7 @@ structure Row (α : Type) where
   i : Int
   j : Int
   cost : α
-  deriving Repr
+  deriving Repr, DecidableEq
 
 section
 variable {α : Type}
